@@ -104,10 +104,14 @@ def r03_1(ctx, rr):
     wrapper_sites(ctx, rr, r"^dict::elias_fano::EliasFanoBuilder::push$", "EliasFanoBuilder::push_unchecked", min_sites=3)
     # push_unchecked updates count (+1) and last_value (= value): the invariants the guards rely on
     b = F.one(r"^dict::elias_fano::EliasFanoBuilder::push_unchecked$")
-    s = show(F, b.body)
+    slf_ = ("var", "self", b.params[0]["id"])
+    val_ = ("var", b.params[1]["name"], b.params[1]["id"])
+    Tp = Termizer(F, b)
+    incs = [n for n in walk(b.body) if n.get("k") == "AssignOp" and n["op"] == "+=" and Tp.term(n["l"]) == ("field", slf_, "count")]
+    sets = [n for n in walk(b.body) if n.get("k") == "Assign" and Tp.term(n["l"]) == ("field", slf_, "last_value")]
     rr.instances += 1
-    rr.check("self.count += 1" in s, "push_unchecked:count", "push_unchecked must increment self.count exactly by one", b.span)
-    rr.check("self.last_value = value" in s, "push_unchecked:last_value", "push_unchecked must record self.last_value = value", b.span)
+    rr.check(len(incs) == 1 and Tp.term(incs[0]["r"]) == ("int", 1), "push_unchecked:count", "push_unchecked must increment self.count exactly by one", b.span)
+    rr.check(len(sets) == 1 and Tp.term(sets[0]["r"]) == val_, "push_unchecked:last_value", "push_unchecked must record self.last_value = value", b.span)
     # From<A>: pre-scan establishes monotonicity and max; builder created with (len, max)
     b = F.one(r"^<dict::elias_fano::EliasFano as std::convert::From<A>>::from$")
     W = []
